@@ -468,6 +468,7 @@ def run_shard(shard):
                 check_interval_shapes(acc, mods, fa, fb)
         acc.sample({"interval_spellings": "2020-01-01T10:00:00.500000Z/2020-01-01T12:00:30Z"})
         check_offset_sweep(acc, mods)
+        check_week53_intervals(acc, mods)
     return acc.result()
 
 
@@ -500,8 +501,40 @@ def check_offset_sweep(acc, mods):
     acc.c["nontrivial"] += len(offs)
 
 
+def check_week53_intervals(acc, mods):
+    """Interval endpoints written as ISO week dates in week 53 - for every kind of year (53-week years incl. the leap years that
+    start on a Thursday, years without a week 53): the calendar's date, or ValueError."""
+    pendulum, fns = mods
+    for y in (1976, 2004, 2032, 2060, 1980, 2008, 2036, 2015, 2020, 2026, 2009, 1998, 2019, 2021, 2024, 2100):
+        try:
+            d53 = dt_.date.fromisocalendar(y, 53, 5)
+        except ValueError:
+            d53 = None
+        w1 = dt_.date.fromisocalendar(y + 1, 1, 1)
+        for text, mk in ((f"{y:04d}-W53-5/P1D", lambda: ((d53.year, d53.month, d53.day), tuple((d53 + dt_.timedelta(days=1)).timetuple()[:3]))),
+                         (f"PT36H/{y:04d}W535", lambda: (tuple((dt_.datetime(d53.year, d53.month, d53.day) - dt_.timedelta(hours=36)).timetuple()[:5]), (d53.year, d53.month, d53.day, 0, 0))),
+                         (f"{y:04d}-W53-5T23:59:59/{y + 1:04d}-W01-1T00:00:00", lambda: ((d53.year, d53.month, d53.day, 23, 59), (w1.year, w1.month, w1.day, 0, 0)))):
+            want = ["ValueError"] if d53 is None else ["Interval"] + [list(x) for x in mk()]
+            acc.c["evaluations"] += 1
+            acc.c["transitions"] += 1
+            try:
+                r = pendulum.parse(text)
+                n = len(want[1]) if len(want) > 1 else 3
+                got = [type(r).__name__, list(r.start.timetuple()[:n]), list(r.end.timetuple()[:n])]
+            except ValueError:
+                got = ["ValueError"]
+            except Exception as e:  # noqa: BLE001
+                got = [f"raises {type(e).__name__}"]
+            if got != want:
+                acc.mismatch("interval", "week-53-endpoint", {"kind": "w53", "s": text}, got, want)
+        acc.c["states"] += 1
+
+
 def replay_case(case, acc):
     mods = _mods()
+    if case["kind"] == "w53":
+        check_week53_intervals(acc, mods)
+        return
     if case["kind"] == "offsweep":
         check_offset_sweep(acc, mods)
         return
